@@ -164,6 +164,7 @@ fn main() {
             props_marlin::c01(&mut ctx);
             let n = ctx.n(12, 150);
             all_schemes!(c01, &mut ctx, n);
+            props_c14::completeness(&mut ctx, "C01");
         }
         "C02" => {
             props_kzg::c02(&mut ctx);
